@@ -22,9 +22,12 @@ const (
 	procText       = "text"        // appends "~" to the data of every non-blank text node in place
 	procRemove     = "remove"      // removes the first child of every element with data-m when that child is a text node
 	procAll        = "all"         // all of the above
+	// procLess: vuego's own LESS processor (vuego.WithLessProcessor / NewLessProcessor(fs)): style
+	// blocks of type text/css+less are compiled on every render, @import reads the template fs
+	procLess = "less"
 )
 
-var allProcs = []string{procNone, procAttrPrefix, procAttrAppend, procText, procRemove, procAll}
+var allProcs = []string{procNone, procAttrPrefix, procAttrAppend, procText, procRemove, procAll, procLess}
 
 type editProc struct{ mode string }
 
@@ -84,11 +87,17 @@ func newRoot(fs iofs.FS, proc string) vuego.Template {
 	if proc == procNone {
 		return vuego.NewFS(fs)
 	}
+	if proc == procLess {
+		return vuego.NewFS(fs, vuego.WithLessProcessor())
+	}
 	return vuego.NewFS(fs, vuego.WithProcessor(editProc{proc}))
 }
 
 func newVue(fs iofs.FS, proc string) *vuego.Vue {
 	v := vuego.NewVue(fs)
+	if proc == procLess {
+		return v.RegisterNodeProcessor(vuego.NewLessProcessor(fs))
+	}
 	if proc != procNone {
 		v.RegisterNodeProcessor(editProc{proc})
 	}
